@@ -67,8 +67,8 @@ def expectedArgLoopConds : List String :=
 
 /-- typed export dispatch (ExportDispatch.lean): the implementation classes with their own exportToArrayOrSlice /
     exportToMap (every other class inherits baseObject's, i.e. the generic functions), which methods enter their
-    container into the identity cache (`cachesTyped`: all but setObject.exportToMap — the known finding
-    set-exportToMap-not-cached; flip this line when the patch lands), and the order of the generic tests
+    container into the identity cache (`cachesTyped`: all of them since 6fa4053; before, setObject.exportToMap did not — finding
+    set-exportToMap-not-cached, now fixed), and the order of the generic tests
     (iterable first, array-like only for non-callables). -/
 def expectedExportDispatch : List String :=
   ["exportToArrayOrSlice@arrayBufferObject", "exportToArrayOrSlice@arrayObject", "exportToArrayOrSlice@baseDynamicObject",
@@ -80,7 +80,7 @@ def expectedExportDispatch : List String :=
    "sparseArrayObject.exportToArrayOrSlice: caches",
    "setObject.exportToArrayOrSlice: caches",
    "mapObject.exportToMap: caches",
-   "MISSING setObject.exportToMap: caches",
+   "setObject.exportToMap: caches",
    "genericExportToArrayOrSlice: caches",
    "genericExportToMap: caches",
    "genericExportToArrayOrSlice: array-like only for non-callables",
